@@ -3,11 +3,14 @@
 A *program* is a tuple of statements (trees of tuples, JSON-able through to_json/from_json):
 
     ("sleep", d) | ("yield",) | ("syield",) | ("mark",) | ("cancel", k) | ("resched", k, D)
-    ("moa", D, body) | ("timeout", D, body) | ("scope", D, body) | ("shield", body) | ("group", child, body)
+    ("moa", D, body) | ("timeout", D, body) | ("scope", D, body) | ("shield", body) | ("group", child, body) | ("catch", body)
 
 `moa/timeout` take a delay relative to the instant of entry, `scope` an absolute deadline, `resched(k, D)` moves the
 deadline of the k-th lexically enclosing scope (0 = innermost, counted across a group boundary) to now + D, `cancel(k)`
 cancels it.  `group{child || body}` opens a task group, starts `child` with start_soon and runs `body` in the parent.
+`catch{body}` runs body and swallows a CancelledError coming out of it (plain `except asyncio.CancelledError: pass`, no
+uncancel()) - cleanup code that intercepts a cancellation and carries on; it makes the level-triggered re-delivery of a
+cancelled scope observable (the next unshielded checkpoint inside the still-cancelled scope raises again).
 
 Three parts:
   * enumerate_programs(): every program of the grammar up to a node count, deterministic order, no sampling;
@@ -29,7 +32,7 @@ TOL = 1e-3  # time comparison tolerance (loop iterations cost microseconds of vi
 TIE = 0.010  # two instants closer than this are a tie (unspecified order) -> skipped and counted
 
 SCOPES = ("moa", "timeout", "scope")
-CONTAINERS = SCOPES + ("shield", "group")
+CONTAINERS = SCOPES + ("shield", "group", "catch")
 
 # --------------------------------------------------------------------------------------------------------------------
 # grammar helpers
@@ -62,6 +65,8 @@ def fmt(prog: tuple) -> str:
             out.append(f"shield{{{fmt(s[1])}}}")
         elif op == "group":
             out.append(f"group{{{fmt(s[1])} || {fmt(s[2])}}}")
+        elif op == "catch":
+            out.append(f"catch{{{fmt(s[1])}}}")
         else:
             raise ValueError(s)
     return "; ".join(out)
@@ -106,8 +111,8 @@ def skeleton(prog: tuple) -> str:
         op = s[0]
         if op in SCOPES:
             out.append(f"{op}{{{skeleton(s[2])}}}")
-        elif op == "shield":
-            out.append(f"shield{{{skeleton(s[1])}}}")
+        elif op in ("shield", "catch"):
+            out.append(f"{op}{{{skeleton(s[1])}}}")
         elif op == "group":
             out.append(f"group{{{skeleton(s[1])}|{skeleton(s[2])}}}")
         else:
@@ -125,8 +130,8 @@ def shape(prog: tuple) -> str:
             op = s[0]
             if op in SCOPES:
                 out.append(f"{op}{{{conts(s[2])}}}")
-            elif op == "shield":
-                out.append(f"shield{{{conts(s[1])}}}")
+            elif op in ("shield", "catch"):
+                out.append(f"{op}{{{conts(s[1])}}}")
             elif op == "group":
                 out.append(f"group{{{conts(s[1])}|{conts(s[2])}}}")
             else:
@@ -153,9 +158,9 @@ def has_op(prog: tuple, ops: tuple[str, ...]) -> bool:
 
 class Alphabet:
     def __init__(self, *, sleeps: tuple, moa: tuple, timeout: tuple, scope: tuple, resched: tuple, ks: tuple = (0, 1),
-                 yields: tuple = ("yield", "syield"), mark: bool = False, max_depth: int = 3) -> None:
+                 yields: tuple = ("yield", "syield"), mark: bool = False, max_depth: int = 3, catch: bool = False, group: bool = True) -> None:
         self.sleeps, self.moa, self.timeout, self.scope, self.resched, self.ks = sleeps, moa, timeout, scope, resched, ks
-        self.yields, self.mark, self.max_depth = yields, mark, max_depth
+        self.yields, self.mark, self.max_depth, self.catch, self.group = yields, mark, max_depth, catch, group
         self._cache: dict = {}
 
     def leaves(self, nsc: int) -> tuple:
@@ -186,7 +191,9 @@ class Alphabet:
         if n >= 2:
             for body in self.blocks(n - 1, depth - 1, nsc, ingroup):
                 yield ("shield", body)  # n-1 >= 1: an empty shield is a no-op (fast path returns at once)
-            for a in range(1, n - 1 + 1):
+                if self.catch:
+                    yield ("catch", body)  # (an empty catch is a no-op as well)
+            for a in range(1, n - 1 + 1 if self.group else 0):
                 for child in self.blocks(a, depth - 1, nsc, True):
                     for body in self.blocks(n - 1 - a, depth - 1, nsc, True):
                         yield ("group", child, body)
@@ -231,8 +238,10 @@ class Alphabet:
                 ok = s[1] in getattr(self, op) and self.contains(s[2])
             elif op == "shield":
                 ok = self.contains(s[1])
+            elif op == "catch":
+                ok = self.catch and self.contains(s[1])
             else:
-                ok = self.contains(s[1]) and self.contains(s[2])
+                ok = self.group and self.contains(s[1]) and self.contains(s[2])
             if not ok:
                 return False
         return True
@@ -263,6 +272,8 @@ class Alphabet:
 #    ("either reports that it caught the cancellation or lets it propagate to an enclosing scope that was itself cancelled"):
 #    this is a choice point (`bits`), the default is to propagate (trio), and either way the enclosing scope's cancellation
 #    stays pending for the next checkpoint.  timeout() raises TimeoutError iff it caught.
+#  * catch{P} swallows a cancellation raised inside P and goes on; nothing else changes: whatever made the cancellation
+#    pending (a cancelled scope around the catch) is still there, so the next unshielded checkpoint raises again.
 #  * Task group = asyncio.TaskGroup contract: a child is a task of its own (no scope of the parent applies to it
 #    directly); when the cancellation reaches the parent inside the group, every unfinished child gets a cancel request
 #    (external from the child's point of view), the group waits for the children (not interruptible any more) and the
@@ -435,6 +446,12 @@ class Ref:
                 yield from self.blk(T, s[1], p + ".", lex)
             finally:
                 T.frames.pop()
+            self.ev(T, "done", p)
+        elif op == "catch":
+            try:
+                yield from self.blk(T, s[1], p + ".", lex)
+            except _Cancelled:
+                pass
             self.ev(T, "done", p)
         elif op == "group":
             child = self.spawn(f"{T.label}/{p}", s[1], p + ".c", lex)
@@ -713,6 +730,7 @@ class Real:
         self.tasks: list[_TaskRec] = []
         self.problems: list[tuple[str, str]] = []  # (clause key, text) found while running (bookkeeping clauses)
         self.injected = 0
+        self.swallowed = 0  # CancelledErrors swallowed by catch{} statements
         self.inj: dict | None = None
         self.root: _TaskRec | None = None
         self.prog_task: asyncio.Task | None = None
@@ -798,6 +816,12 @@ class Real:
                 await b.ignore_cancellation(self.blk(T, s[1], p + ".", lex))
             finally:
                 T.sdepth -= 1
+            self.ev(T, "done", p, False)
+        elif op == "catch":
+            try:
+                await self.blk(T, s[1], p + ".", lex)
+            except asyncio.CancelledError:
+                self.swallowed += 1  # plain `except CancelledError: pass` (no uncancel())
             self.ev(T, "done", p, False)
         elif op == "group":
             await self.group_stmt(T, s, p, lex)
